@@ -483,6 +483,20 @@ func TestC01_Random(t *testing.T) {
 		c.RawBody = rapid.IntRange(0, 4).Draw(rt, "raw-body") == 0
 		c.OpaqueKeys = rapid.IntRange(0, 4).Draw(rt, "opaque-keys") == 0
 		c.Reentrant = rapid.IntRange(0, 3).Draw(rt, "reentrant") == 0
+		if rapid.IntRange(0, 15).Draw(rt, "textual-alg") == 0 && len(c.Spec.Sigs) > 0 {
+			// alg given as the text name of the signer's algorithm (alg = int / tstr): the library may refuse
+			// to sign; if it signs, the message must verify like any other
+			name := rc.Text(refcose.AlgName(c.Spec.Sigs[0].Key.Alg))
+			target := &c.Spec.Prot
+			if c.Spec.Kind == refcose.KSign {
+				target = &c.Spec.Sigs[0].Prot
+			}
+			for i := range target.M {
+				if l, ok := target.M[i].K.Int64(); ok && l == 1 && target.M[i].K.K == rc.KInt {
+					target.M[i].V = name
+				}
+			}
+		}
 		stats.Eval()
 		judge(rt, "c01", c, checkC01)
 	})
